@@ -228,15 +228,18 @@ Definition step (st : state) (o : op) : state * out :=
       else (st, OBadOp)
   | Listen (TCls t) f fl =>
       if Nat.ltb t (length cs) then
-        let x := mk_lfn (next_w st) f fl in
-        match do_insert cs t (negb (fl_insert fl)) x with
-        | None => (st, OFuel)
-        | Some cs' =>
-            (* registry._stored_in_collection: a key that is already present keeps its old entry *)
-            ({| classes := cs'; insts := insts st;
-                k2c := if has_key (TCls t, f) (k2c st) then k2c st else k2c st ++ [((TCls t, f), x)];
-                next_w := S (next_w st); fired := fired st |}, OOk)
-        end
+        (* _do_insert_or_append: if not registry._stored_in_collection(event_key, self): return
+           - a (class, fn) pair that is already established is ignored, like at instance level *)
+        if has_key (TCls t, f) (k2c st) then
+          ({| classes := cs; insts := insts st; k2c := k2c st; next_w := S (next_w st); fired := fired st |}, OOk)
+        else
+          let x := mk_lfn (next_w st) f fl in
+          match do_insert cs t (negb (fl_insert fl)) x with
+          | None => (st, OFuel)
+          | Some cs' =>
+              ({| classes := cs'; insts := insts st; k2c := k2c st ++ [((TCls t, f), x)];
+                  next_w := S (next_w st); fired := fired st |}, OOk)
+          end
       else (st, OBadOp)
   | Listen (TInst i) f fl =>
       match nth_error (insts st) i with
@@ -398,9 +401,11 @@ Fixpoint srun (sp : sstate) (ops : list op) : sstate * list out :=
 (* ================================================================== GUARD
    The region in which the code meets the specification (each excluded region has a refutation):
      (g1) single inheritance: a new class has no base, or one base b and mro = b :: mro(b);
-     (g2) a class-level listen() does not repeat a (class, fn) pair that is still registered;
-     (g3) a class-level listen() of an unwrapped function (no once/named/retval wrapper) is not made
-          while the same function is registered unwrapped on an ancestor or descendant class. *)
+     (g3) a class-level listen() of an unwrapped function (no once/named/retval wrapper) that
+          registers a new (class, fn) pair is not made while the same function is registered
+          unwrapped on an ancestor or descendant class.
+   (A former clause (g2), "no repeated class-level pair", is gone: the repeat is ignored since the
+   repair of C28-class-double-listen.) *)
 Definition comparable (sp : sstate) (a b : nat) : bool :=
   Nat.eqb a b || memn a (s_mro sp b) || memn b (s_mro sp a).
 Definition plain (r : reg) : bool := negb (g_once r || g_wrap r).
@@ -425,8 +430,8 @@ Definition gstep (sp : sstate) (o : op) : bool :=
       | _ => false
       end
   | Listen (TCls t) f fl =>
-      Nat.ltb t nc && negb (live (TCls t, f) (s_log sp)) &&
-      (fl_once fl || fl_wrap fl || negb (existsb (clash sp t f) (s_log sp)))
+      Nat.ltb t nc &&
+      (live (TCls t, f) (s_log sp) || fl_once fl || fl_wrap fl || negb (existsb (clash sp t f) (s_log sp)))
   | _ => true
   end.
 Fixpoint guard (sp : sstate) (ops : list op) : bool :=
